@@ -207,6 +207,10 @@ func parseJSONPolygonCoords(
 		coords = append(coords, []geometry.Point{})
 		ii := len(coords) - 1
 		value.ForEach(func(key, value gjson.Result) bool {
+			if !value.IsArray() {
+				err = errCoordinatesInvalid
+				return false
+			}
 			var count int
 			var nums [4]float64
 			value.ForEach(func(key, value gjson.Result) bool {
